@@ -67,6 +67,9 @@ int main(int argc, char** argv) {
         // its step closes, i.e. before an action applied at that step but after the same keywords when they are inlined (seen as a
         // WellConnections rebuilt with the head a WELSPECS body had just changed).  No WPIMULT in the C04 schedules.
         o.wpimult = false;
+        // Inside an action body it stays: with no WPIMULT in the deck proper, and no second application at the same report step
+        // (checked below), nothing accumulates within the step and the applied body must scale the connections like the inlined one.
+        o.actionWpimult = true;
         o.minSteps = 3; o.maxSteps = 7;
         gdeck::Generator gen(rng, o);
         gdeck::Model m = gen.generate();
@@ -109,6 +112,11 @@ int main(int argc, char** argv) {
             apps.push_back(ap);
         }
         if (apps.empty()) return;
+        {   // WPIMULT accumulation within one report step is exempt: a body with WPIMULT is the only application at its step
+            std::map<size_t, int> perStep, withWpi;
+            for (auto& ap : apps) { ++perStep[ap.step]; for (auto& bk : m.actions[ap.actionIdx].body) if (bk.name == "WPIMULT") { ++withWpi[ap.step]; break; } }
+            for (auto& kv : withWpi) if (perStep[kv.first] > 1) { rep.count("skipped_wpimult_accumulation_in_step"); return; }
+        }
 
         std::vector<std::vector<std::string>> inlineAt(nsteps);   // body texts to append to each step
         std::string trace;
